@@ -39,7 +39,6 @@ func VerifC03_MatchHistory() {
 		case 1: // waiting proxy k times out
 			k := verifapi.Concrete(verifapi.Choice("k", 4))
 			if k < n && ref[k].waiting {
-				verifapi.Assert(ref[k].sf.index >= 0, "a waiting proxy has a heap position")
 				if ref[k].unres {
 					heap.Remove(ctx.snowflakes, ref[k].sf.index)
 				} else {
